@@ -163,7 +163,8 @@ class LevelLimit(TreeLevelCandidatesFilter):
             level_candidates.sort(reverse=True)
             currently_active_level_below = len([deme for deme in tree.levels[level + 1] if deme.is_active])
             if currently_active_level_below + len(level_candidates) > self.limit:
-                cutoff = self.limit - currently_active_level_below
+                # No free slot (cutoff 0) also when the level already holds more active demes than the limit.
+                cutoff = max(self.limit - currently_active_level_below, 0)
                 cutoff_candidate = level_candidates[cutoff]
                 for deme in level_demes:
                     candidates[deme].individuals = [
